@@ -242,3 +242,60 @@ Example C09_example_roundtrip :
   hdr_entry_meta 1 2 rep_chk rep_dec D (format_meta (hdr_intra_encode 1 rep_enc) D [xff; x61; xfa] 1000000000000 ++ [x54]) =
   (([xff; x61; xfa], false, true), (decimal 1000000000000, false, true), Some 1000000000000%Z, [x54]).
 Proof. vm_compute. reflexivity. Qed.
+
+(* ------------------------------------------------------------------ *)
+(* The same two theorems on the REAL codecs: enc / chk are the verified facade encoder and check
+   (Facade.fac_encode / fac_check over GF(2^8), any of the four codecs, intra geometry k + es <= 255).
+   enc_len, chk_enc and chk_detect are no longer hypotheses: they are discharged from the Reed-Solomon
+   algebra (Proofs/CodecInst.v).  Only decoder completeness remains assumed (third-party decoders). *)
+From PFF Require Import Facade Proofs.CodecInst.
+
+Theorem C09_roundtrip_rs : forall (algo : N) (k es : nat) dec, 1 <= k -> k + es <= 255 ->
+  let enc := ienc algo (k + es) k in let chk := ichk algo (k + es) k in
+  forall path size rest,
+  (unambiguous D path (decimal size) (hdr_intra_encode k enc path) (hdr_intra_encode k enc (decimal size)) = true ->
+   hdr_entry_meta k es chk dec D (format_meta (hdr_intra_encode k enc) D path size ++ rest) =
+   ((path, false, true), (decimal size, false, true), Some (Z.of_N size), rest)) /\
+  (forall bs pre pos1,
+   unambiguous D path (decimal size) (whole_intra_encode k enc path) (whole_intra_encode k enc (decimal size)) = true ->
+   length (format_meta (whole_intra_encode k enc) D path size) <= bs ->
+   whole_entry_meta k es chk dec bs D (pre ++ format_meta (whole_intra_encode k enc) D path size ++ rest) (zlen pre) pos1 =
+   ((path, false, true), (decimal size, false, true), Some (Z.of_N size),
+    ((zlen pre + zlen (format_meta (whole_intra_encode k enc) D path size))%Z, pos1))).
+Proof.
+  intros algo k es dec Hk Hn enc chk.
+  exact (C09_roundtrip k es enc chk dec Hk (entry_enc_len algo k es Hk Hn) (entry_chk_enc algo k es)).
+Qed.
+Print Assumptions C09_roundtrip_rs.
+
+Theorem C09_repair_rs : forall (algo : N) (k es : nat) dec, 1 <= k -> 1 <= es -> k + es <= 255 ->
+  let enc := ienc algo (k + es) k in let chk := ichk algo (k + es) k in
+  (* the one remaining oracle hypothesis: the decoder returns the codeword when at most es/2 symbols are wrong *)
+  (forall m m' c', length m <= k -> length m' = length m -> length c' = es ->
+     Entry.hamming m' m + Entry.hamming c' (enc m) <= es / 2 -> dec m' c' = Some (m, enc m)) ->
+  forall path size path' size' pecc' secc' rest,
+  (within_bound k es path path' (hdr_intra_encode k enc path) pecc' ->
+   within_bound k es (decimal size) size' (hdr_intra_encode k enc (decimal size)) secc' ->
+   unambiguous D path' size' pecc' secc' = true ->
+   exists fp fs,
+     hdr_entry_meta k es chk dec D (join_meta D path' size' pecc' secc' ++ rest) =
+     ((path, fp, true), (decimal size, fs, true), Some (Z.of_N size), rest) /\
+     (fp = false <-> (path' = path /\ pecc' = hdr_intra_encode k enc path)) /\
+     (fs = false <-> (size' = decimal size /\ secc' = hdr_intra_encode k enc (decimal size)))) /\
+  (forall bs pre pos1,
+   within_bound k es path path' (whole_intra_encode k enc path) pecc' ->
+   within_bound k es (decimal size) size' (whole_intra_encode k enc (decimal size)) secc' ->
+   unambiguous D path' size' pecc' secc' = true ->
+   length (join_meta D path' size' pecc' secc') <= bs ->
+   exists fp fs,
+     whole_entry_meta k es chk dec bs D (pre ++ join_meta D path' size' pecc' secc' ++ rest) (zlen pre) pos1 =
+     ((path, fp, true), (decimal size, fs, true), Some (Z.of_N size),
+      ((zlen pre + zlen (join_meta D path' size' pecc' secc'))%Z, pos1)) /\
+     (fp = false <-> (path' = path /\ pecc' = whole_intra_encode k enc path)) /\
+     (fs = false <-> (size' = decimal size /\ secc' = whole_intra_encode k enc (decimal size)))).
+Proof.
+  intros algo k es dec Hk He Hn enc chk Hdec.
+  exact (C09_repair k es enc chk dec Hk (entry_enc_len algo k es Hk Hn) (entry_chk_enc algo k es) He
+           (entry_chk_detect algo k es Hk Hn) Hdec).
+Qed.
+Print Assumptions C09_repair_rs.
